@@ -816,6 +816,33 @@ func checkC13Fallback(p *Prog, r *Report, ru *Rule) {
 		}
 		return false
 	}
+	defaultEmptyHere := func(fn *ssa.Function, at ssa.Instruction) bool {
+		for _, b := range fn.Blocks {
+			ifi := blockIf(b)
+			if nil == ifi {
+				continue
+			}
+			dc := decodeCond(ifi.Cond)
+			if nil == dc.Y {
+				continue
+			}
+			x, y := dc.X, dc.Y
+			if s, isC := constString(x); isC && "" == s {
+				x, y = y, x
+			}
+			if s, isC := constString(y); !isC || "" != s || !isDefault(x) {
+				continue
+			}
+			empty := 0
+			if !dc.Eq {
+				empty = 1
+			}
+			if edgeDominates(ifi, empty, at) {
+				return true
+			}
+		}
+		return false
+	}
 	var mayEmpty func(fn *ssa.Function, v ssa.Value, at ssa.Instruction, depth int) (bool, bool)
 	/* Returns (may be empty, mentions the compiled-in value). */
 	mayEmpty = func(fn *ssa.Function, v ssa.Value, at ssa.Instruction, depth int) (bool, bool) {
@@ -883,6 +910,11 @@ func checkC13Fallback(p *Prog, r *Report, ru *Rule) {
 			case *ssa.Return:
 				for k, rv := range x.Results {
 					if !defPos[k] {
+						continue
+					}
+					/* Reached only when the compiled-in value itself has
+					been found empty: outside what is claimed. */
+					if defaultEmptyHere(fn, i) {
 						continue
 					}
 					m, _ := mayEmpty(fn, rv, i, 0)
